@@ -108,6 +108,16 @@ class Custom(object):
         return "Custom(%r)" % (self.x,)
 
 
+class Encoded(object):
+    """Another type of the caller's: the caller's json_default encodes it as the JSON-native value self.enc, which may be
+    None (a 'redacted' marker whose documented encoding IS null) or falsy (0, "", [], False...)."""
+    def __init__(self, enc):
+        self.enc = enc
+
+    def __repr__(self):
+        return "Encoded(as %r)" % (self.enc,)
+
+
 class Unsupported(object):
     def __repr__(self):
         return "<Unsupported>"
@@ -218,6 +228,8 @@ LEAVES = {
                 lambda r: complex(_rand_float(r), _rand_float(r))),
     "uuid": ([uuid.UUID("12345678-1234-5678-1234-567812345678")], lambda r: uuid.UUID(int=r.getrandbits(128))),
     "enum": ([Color.RED, Color.NAME], None),
+    "custom_null": ([Encoded(None)], None),
+    "custom_falsy": ([Encoded(0), Encoded(""), Encoded([]), Encoded(False), Encoded(0.0), Encoded({}), Encoded(-0.0)], None),
     "unsupported": ([Unsupported(), object(), len, int], None),
     "deep": ([nest(100, "list", 7), nest(100, "dict", "x\n"), nest(100, "mixed", -0.0), nest(128, "mixed", None)],
              lambda r: nest(r.randint(20, 200), r.choice(["list", "dict", "mixed"]), r.choice([1, "\U0001F600", 2 ** 63 - 1, 1e308]))),
@@ -390,6 +402,9 @@ def match(o, wit, dec, path, notes=None):
         return None
     if tag in ("same", "exact_or_rejected"):
         return same(obj, dec, path)
+    if tag == "encoded":
+        r = same(obj.enc, dec, path)
+        return r and "%s: the caller's json_default encodes this object as %r; %s" % (path, obj.enc, r)
     if tag == "str":
         return None if type(dec) is str and dec == str(obj) else "%s: logged the path %r, the line holds %s instead of its text %r" % (
             path, obj, _short(dec), str(obj))
